@@ -4,7 +4,8 @@ import common, tlc, zw
 sys.path.insert(0, os.path.join(common.VERIF, "gen"))
 import dwarfgen
 
-TAG = {"cu": 0x11, "pu": 0x3c, "imp": 0x3d, "ns": 0x39, "var": 0x34, "sub": 0x2e, "st": 0x13}
+TAG = {"cu": 0x11, "pu": 0x3c, "imp": 0x3d, "ns": 0x39, "var": 0x34, "sub": 0x2e, "st": 0x13,
+       "callsite": 0x48, "gnucallsite": 0x4109, "inl": 0x1d}
 ATN = {"name": 0x03, "line": 0x3b, "ext": 0x3f, "sibling": 0x01, "decl": 0x3c, "type": 0x49, "import": 0x18,
        "spec": 0x47, "orig": 0x31}
 FORMC = dwarfgen.FORM
